@@ -87,7 +87,7 @@ func ruleFreeParsersRejectBlankLines(w *World, r *Report) {
 			r.OK(key, w.FnPos(open), fmt.Sprintf("%d node-returning return(s), each under IsBlank/IsEmpty == false", nRet))
 		}
 	}
-	r.Expect("block parsers without trigger characters", n, 2)
+	r.Expect("block parsers without trigger characters", n, 1)
 }
 
 // byteTestOn: cond is `s[i] == c` / `s[i] != c` for a constant c; returns (c, isEq).
